@@ -257,7 +257,7 @@ def _duration(draw, L, d):
 
 
 @st.composite
-def _notes(draw, sk, nmax, fill_rests_ok, with_grace, with_rests):
+def _notes(draw, sk, nmax, fill_rests_ok, with_grace, with_rests, with_unpitched=False):
     T = sk["T"]
     divs = sk["divs"]
     L0 = sk["L"][0]
@@ -287,7 +287,12 @@ def _notes(draw, sk, nmax, fill_rests_ok, with_grace, with_rests):
         kind = "note"
         if with_rests and draw(st.integers(0, 6)) == 0:
             kind = "rest"
+        elif with_unpitched and draw(st.integers(0, 9)) == 0:
+            # an UnpitchedNote: a GenericNote that is not a Note (tie_notes and the note array pass it by)
+            kind = "unpitched"
         base = {"kind": kind, "voice": voice, "staff": staff}
+        if kind == "unpitched":
+            base.update(step=draw(st.sampled_from(STEPS)), octave=draw(st.integers(2, 6)))
         if kind == "note":
             base.update(step=draw(st.sampled_from(STEPS)), alter=draw(st.sampled_from([-1, 0, 0, 0, 1])), octave=draw(st.integers(2, 6)))
         pieces = [(t, dur)]
@@ -379,15 +384,46 @@ def _existing_measures(draw, spec, allow_full):
 
 
 @st.composite
+def _number_measures(draw, meas):
+    """Existing measures with their numbers: consecutive from 1 (as before), all None (the constructor
+    default) or arbitrary (0, gaps, repeats) - add_measures has to renumber them all the same."""
+    style = draw(st.sampled_from(["consecutive", "consecutive", "none", "arbitrary"]))
+    out = []
+    for i, (a, b) in enumerate(meas):
+        if style == "consecutive":
+            num = i + 1
+        elif style == "none":
+            num = None
+        else:
+            num = draw(st.integers(0, 40))
+        out.append([a, b, num, str(i + 1)])
+    return out, style
+
+
+@st.composite
+def _beat_mode(draw, timesigs, weights):
+    """notated / musical (default beats) / musical-custom (user-supplied beats for signatures of the part)."""
+    mode = draw(st.sampled_from(weights))
+    mbeats = {}
+    if mode == "musical-custom":
+        for _ in range(draw(st.integers(1, 2))):
+            (_, b, bt) = draw(st.sampled_from([tuple(x) for x in timesigs]))
+            mbeats["%d/%d" % (b, bt)] = draw(st.integers(1, 6))
+    return mode, mbeats
+
+
+@st.composite
 def part_for_measures(draw, tier):
     """Spec for sub-check (a): add_measures alone."""
     sk = draw(skeleton(any_divs=True))
     notes = draw(_notes(sk, 3, False, False, True))
     spec = {"id": "P1", "name": None, "divs": sk["divs"], "timesigs": sk["timesigs"], "measures": [], "notes": notes, "L": sk["L"]}
     meas, mode = draw(_existing_measures(spec, allow_full=False))
-    spec["measures"] = [[a, b, i + 1, str(i + 1)] for i, (a, b) in enumerate(meas)]
+    spec["measures"], spec["number_style"] = draw(_number_measures(meas))
     spec["measure_mode"] = mode
-    spec["beat_mode"] = draw(st.sampled_from(["notated", "notated", "musical"]))
+    spec["beat_mode"], spec["mbeats"] = draw(_beat_mode(sk["timesigs"], ["notated", "notated", "notated", "musical", "musical", "musical-custom"]))
+    # add_measures called a second time has nothing left to add
+    spec["twice"] = draw(st.integers(0, 3)) == 0
     return spec
 
 
@@ -405,6 +441,9 @@ PIPELINES = [
     ["add_measures", "tie_notes", "find_tuplets", "fill_rests:global", "sanitize_part"],
     ["tie_notes", "find_tuplets", "fill_rests:mw", "sanitize_part"],
 ]
+
+
+ALL_OPS = ["add_measures", "tie_notes", "tie_notes", "find_tuplets", "sanitize_part", "fill_rests:mw", "fill_rests:global"]
 
 
 def occupy_empty_bars(spec, ties_first):
@@ -435,20 +474,44 @@ def occupy_empty_bars(spec, ties_first):
 @st.composite
 def part_for_pipeline(draw, tier):
     """Spec for sub-check (b): notes at arbitrary positions and a pipeline of operations."""
-    ops = list(draw(st.sampled_from(PIPELINES)))
+    if draw(st.integers(0, 3)) == 0:
+        # any order, with repetitions (the fixed lists above are the orders the importers use)
+        ops = draw(st.lists(st.sampled_from(ALL_OPS), min_size=2, max_size=5))
+        if draw(st.booleans()) and "add_measures" not in ops:
+            ops = ["add_measures"] + ops
+        free_order = True
+    else:
+        ops = list(draw(st.sampled_from(PIPELINES)))
+        free_order = False
     fill = any(o.startswith("fill_rests") for o in ops)
     sk = draw(skeleton(any_divs=draw(st.integers(0, 4)) == 0))
     nmax = 6 if tier == "quick" else 9
-    notes = draw(_notes(sk, nmax, fill, True, True))
+    notes = draw(_notes(sk, nmax, fill, True, True, with_unpitched=True))
     spec = {"id": "P1", "name": None, "divs": sk["divs"], "timesigs": sk["timesigs"], "measures": [], "notes": notes, "L": sk["L"]}
     meas, mode = draw(_existing_measures(spec, allow_full=True))
-    if "add_measures" not in ops and mode in ("some", "around-ts") and "tie_notes" in ops:
+    if mode in ("some", "around-ts") and "tie_notes" in ops and ("add_measures" not in ops or ops.index("tie_notes") < ops.index("add_measures")):
         # tie_notes without add_measures: either no measures or a complete tiling (the
         # "within one measure" promise presupposes that every position has a measure)
         meas, mode = [], "none"
-    spec["measures"] = [[a, b, i + 1, str(i + 1)] for i, (a, b) in enumerate(meas)]
+    spec["measures"], spec["number_style"] = draw(_number_measures(meas))
     spec["measure_mode"] = mode
-    spec["beat_mode"] = draw(st.sampled_from(["notated", "notated", "notated", "musical"]))
+    spec["free_order"] = free_order
+    spec["beat_mode"], spec["mbeats"] = draw(_beat_mode(sk["timesigs"], ["notated", "notated", "notated", "notated", "notated", "musical", "musical", "musical-custom"]))
+    # complete slurs and tuplets between pitched notes (tie_notes has to carry a slur end over to the last tied piece)
+    pitched_all = [n for n in notes if n["kind"] == "note"]
+    spec["slurs"], spec["tuplets"] = [], []
+    if len(pitched_all) >= 1 and draw(st.integers(0, 2)) == 0:
+        for _ in range(draw(st.integers(1, 3))):
+            a = draw(st.sampled_from(pitched_all))
+            later = [n for n in pitched_all if n["t"] >= a["t"] and n["t"] + n["dur"] >= a["t"] + a["dur"]]
+            b = draw(st.sampled_from(later))
+            if draw(st.integers(0, 3)) == 0:
+                spec["tuplets"].append([a["id"], b["id"], 3, 2, "eighth"])
+            else:
+                spec["slurs"].append([a["id"], b["id"]])
+    # how fill_rests gets the part (ScoreLike = Part | Score | PartGroup | list of these) and sanitize_part's tie_tolerance
+    spec["fill_arg"] = draw(st.sampled_from(["part", "part", "part", "part", "score", "score", "score", "list", "group"]))
+    spec["tie_tolerance"] = draw(st.sampled_from([0, 0, 0, 1, 4]))
     dang = []
     if "sanitize_part" in ops and draw(st.integers(0, 2)) == 0:
         pitched = [n for n in notes if n["kind"] == "note"]
@@ -463,4 +526,22 @@ def part_for_pipeline(draw, tier):
     spec["ops"] = ops
     if "fill_rests:mw" in ops and draw(st.integers(0, 3)) > 0:
         occupy_empty_bars(spec, "tie_notes" in ops)
+    # note ids of the form X-Y as unfolded parts have them (_make_tied_note_id appends its letter to X)
+    if draw(st.integers(0, 3)) == 0:
+        _suffix_ids(spec, "-1")
     return spec
+
+
+def _suffix_ids(spec, suffix):
+    ren = {n["id"]: n["id"] + suffix for n in spec["notes"]}
+    for n in spec["notes"]:
+        n["id"] = ren[n["id"]]
+        for k in ("tie_next", "tie_prev", "grace_next"):
+            if n.get(k):
+                n[k] = ren[n[k]]
+    for dg in spec.get("dangling", []):
+        if dg.get("note"):
+            dg["note"] = ren[dg["note"]]
+    spec["slurs"] = [[ren[a], ren[b]] for a, b in spec.get("slurs", [])]
+    spec["tuplets"] = [[ren[t[0]], ren[t[1]]] + list(t[2:]) for t in spec.get("tuplets", [])]
+    spec["id_suffix"] = suffix
